@@ -107,6 +107,8 @@ type ModelBackend struct {
 	Plan []string
 	// Gate, if set, is called at the start of every call (scheduling point).
 	Gate func(label string)
+	// GateCtx, if set, is called for FindMissing with the objects asked about and those present.
+	GateCtx func(ctx context.Context, op string, objs, present []string)
 
 	mu    sync.Mutex
 	data  map[string]bool
@@ -223,13 +225,19 @@ func (b *ModelBackend) FindMissing(ctx context.Context, digests digest.Set) (dig
 		return digest.EmptySet, ErrInjected
 	}
 	sb := digest.NewSetBuilder(0)
+	present := []string{}
 	b.mu.Lock()
 	for _, d := range digests.Items() {
 		if !b.data[b.key(d)] {
 			sb.Add(d)
+		} else {
+			present = append(present, b.U.Name(d))
 		}
 	}
 	b.mu.Unlock()
+	if b.GateCtx != nil {
+		b.GateCtx(ctx, "FindMissing", b.U.Names(digests), present)
+	}
 	return sb.Build(), nil
 }
 
